@@ -62,6 +62,9 @@ def item(kind, rnd):
     if kind == "rtcm":
         p = good_payloads(rnd)
         return ("rtcm", frame(p), p)
+    if kind == "rtcm1":  # one-byte payloads: every value, so that CRC trailers ending in a sync byte occur
+        p = bytes([rnd.randrange(256)])
+        return ("filler", frame(p), p)
     if kind == "filler":
         p = bytes(rnd.randrange(256) for _ in range(rnd.choice([0, 0, 1])))
         return ("filler", frame(p), p)
